@@ -155,12 +155,11 @@ def kcUpdate (phi : List (List α)) (unstable : α → Bool) (m : Nat) (s : KSta
     if unstable k then .error "ValueError"
     else .ok { s with A := addScaled s.A k (s.B.getD (m - 1) []) }
 
-/-- `gamma` of the second half; a zero `beta[q]` would raise `ZeroDivisionError` -/
+/-- `gamma` of the second half: `[inner(z ** -(m + 1), B[q]) / beta[q] for q in xrange(m)]`;
+    the comprehension raises `ZeroDivisionError` at the first zero `beta[q]` -/
 def kcGamma (phi : List (List α)) (m : Nat) (s : KState α) : Except String (List α) :=
-  (List.range m).mapM fun q =>
-    let bq := coef s.beta q
-    if bq = 0 then .error "ZeroDivisionError"
-    else .ok (innerM phi (delay (m + 1)) (s.B.getD q []) / bq)
+  if (List.range m).any (fun q => coef s.beta q = 0) then .error "ZeroDivisionError"
+  else .ok ((List.range m).map fun q => innerM phi (delay (m + 1)) (s.B.getD q []) / coef s.beta q)
 
 /-- `(z ** -(m + 1) - sum(gamma[q] * B[q] for q in xrange(m))).numlist` -/
 def kcNewB (m : Nat) (gamma : List α) (B : List (List α)) : List α :=
